@@ -136,6 +136,9 @@ NewCache(f) == [f |-> f, it |-> EmptyItems, ev |-> <<>>, lists |-> <<>>]
 Remember(ls, l) == IF Len(ls) >= 8 THEN Tail(ls) \o <<l>> ELSE ls \o <<l>>
 RecentLists(c) == {caches[c].lists[j] : j \in DOMAIN caches[c].lists}
 
+\* readers in flight on cache c see every content the cache passes through until they return (C15)
+AddSeen(c, it) == [pend EXCEPT !.rd = [r \in DOMAIN @ |-> IF @[r].cache = c THEN [@[r] EXCEPT !.seen = @ \cup {it}] ELSE @[r]]]
+
 SyncClass(c, list, evs) ==
   IF ~KnownList(list) \/ ~KnownEvs(evs) THEN "foreign-object"
   ELSE LET pre == caches[c].it  f == caches[c].f  rp == Replay(pre, evs) IN
@@ -161,7 +164,7 @@ NetInit == [lists |-> <<>>, consumed |-> 0, wat |-> <<>>, sess |-> <<>>, expectS
 
 EvBegin == /\ buf' = R.buf
            /\ caches' = <<>> /\ stages' = <<>> /\ pubs' = <<>> /\ fsubs' = <<>> /\ ctls' = <<>> /\ mons' = <<>>
-           /\ pend' = [mon |-> "", monmode |-> "", consumer |-> <<>>, closedTops |-> {}, closedAll |-> FALSE, srv |-> <<>>]
+           /\ pend' = [mon |-> "", monmode |-> "", consumer |-> <<>>, closedTops |-> {}, closedAll |-> FALSE, srv |-> <<>>, rd |-> <<>>, kept |-> <<>>]
            /\ net' = [NetInit EXCEPT !.period = IF "period_us" \in DOMAIN R THEN R.period_us ELSE 0, !.variant = R.variant]
 
 EvCacheNew == /\ Report(IF X(1) \notin Filters THEN "unknown-filter" ELSE "", [cache |-> A, filter |-> X(1)])
@@ -174,11 +177,13 @@ EvCacheFilter == /\ Report(IF X(1) \notin Filters THEN "unknown-filter" ELSE "",
 
 EvCacheSync == /\ Report(SyncClass(A, X(1), X(2)), [cache |-> A, pre |-> caches[A].it, filter |-> caches[A].f, list |-> X(1), events |-> X(2)])
                /\ caches' = [caches EXCEPT ![A].it = After(A, X(2)), ![A].ev = X(2)]
-               /\ UNCHANGED <<buf, stages, pubs, fsubs, ctls, mons, pend, net>>
+               /\ pend' = AddSeen(A, After(A, X(2)))
+               /\ UNCHANGED <<buf, stages, pubs, fsubs, ctls, mons, net>>
 
 EvCacheUpdate == /\ Report(UpdClass(A, X(1), X(2)), [cache |-> A, pre |-> caches[A].it, filter |-> caches[A].f, event |-> X(1), events |-> X(2)])
                  /\ caches' = [caches EXCEPT ![A].it = After(A, X(2)), ![A].ev = X(2)]
-                 /\ UNCHANGED <<buf, stages, pubs, fsubs, ctls, mons, pend, net>>
+                 /\ pend' = AddSeen(A, After(A, X(2)))
+                 /\ UNCHANGED <<buf, stages, pubs, fsubs, ctls, mons, net>>
 
 EvCacheList == /\ Report(IF ~KnownList(X(1)) THEN "foreign-object"
                          ELSE IF ~ListOK(X(1)) \/ ItemsOf(X(1)) # caches[A].it THEN "list-not-snapshot" ELSE "",
@@ -589,6 +594,29 @@ EvCtlFinal ==
                  IF ~R.done THEN "shutdown-timeout" ELSE "">>),
          [final |-> R, list_failure_injected |-> net.expectStop]) /\ Skip
 
+(* ---- concurrent cache readers (C15) ---- *)
+EvRdCall ==
+  /\ pend' = [pend EXCEPT !.rd = (A :> [cache |-> R.cache, op |-> R.op, k |-> R.k, seen |-> {caches[R.cache].it}]) @@ @]
+  /\ UNCHANGED <<buf, caches, stages, pubs, fsubs, ctls, mons, net>>
+
+\* the returned value is the cache content at some point between call and return
+EvRdRet ==
+  LET p == pend.rd[A] IN
+  /\ Report(IF R.err THEN "read-error"
+            ELSE IF R.op = "list" THEN
+                 (IF ~KnownList(R.list) THEN "foreign-object"
+                  ELSE IF ~ListOK(R.list) \/ ItemsOf(R.list) \notin p.seen THEN "read-not-linearizable" ELSE "")
+            ELSE (IF (IF R.present THEN Entry(R.o.v, R.o.l) ELSE Absent) \notin {st[R.k] : st \in p.seen} THEN "read-not-linearizable" ELSE ""),
+            [reader |-> A, returned |-> R, contents_between_call_and_return |-> p.seen])
+  /\ pend' = [pend EXCEPT !.kept = IF R.op = "list" /\ R.keep THEN (A :> [n |-> R.n, list |-> R.list]) @@ @ ELSE @]
+  /\ UNCHANGED <<buf, caches, stages, pubs, fsubs, ctls, mons, net>>
+
+\* a slice returned earlier still holds what it held: it belongs to the caller
+EvRdRecheck ==
+  /\ Report(IF A \in DOMAIN pend.kept /\ pend.kept[A].n = R.n /\ pend.kept[A].list # R.list THEN "returned-slice-not-owned" ELSE "",
+            [reader |-> A, was |-> IF A \in DOMAIN pend.kept THEN pend.kept[A].list ELSE <<>>, now |-> R.list])
+  /\ Skip
+
 (* ---- termination observations ---- *)
 EvBlocked == Report("api-call-blocks", [call |-> R.call, node |-> R.node]) /\ Skip
 EvLeak == Report(IF R.n # 0 THEN "goroutine-leak" ELSE "", [n |-> R.n, sample |-> R.sample]) /\ Skip
@@ -646,6 +674,9 @@ Dispatch ==
     [] e = "cb"               -> EvCb
     [] e = "leak"             -> EvLeak
     [] e = "blocked"          -> EvBlocked
+    [] e = "rd.call"          -> EvRdCall
+    [] e = "rd.ret"           -> EvRdRet
+    [] e = "rd.recheck"       -> EvRdRecheck
     [] e = "srv.listret"      -> EvSrvListRet
     [] e = "srv.listcall"     -> EvSrvListCall
     [] e = "lister.delivered" -> EvListerDelivered
@@ -676,7 +707,7 @@ Dispatch ==
 
 Init == /\ i = 1 /\ buf = 100
         /\ caches = <<>> /\ stages = <<>> /\ pubs = <<>> /\ fsubs = <<>> /\ ctls = <<>> /\ mons = <<>>
-        /\ pend = [mon |-> "", monmode |-> "", consumer |-> <<>>, closedTops |-> {}, closedAll |-> FALSE, srv |-> <<>>]
+        /\ pend = [mon |-> "", monmode |-> "", consumer |-> <<>>, closedTops |-> {}, closedAll |-> FALSE, srv |-> <<>>, rd |-> <<>>, kept |-> <<>>]
         /\ net = NetInit
 
 Next == /\ i <= Len(Recs)
